@@ -34,7 +34,9 @@ VARIABLES
     Configs,      \* sequence of pool configurations
     CloudOn       \* BOOLEAN: a cloud provider is configured
 cfgVars == <<Specs, NodeSub, Configs, CloudOn>>
-OpTypes == {"filter", "bind", "unbind", "resync", "apirelease", "poolupsert", "reload", "syncpod", "preempt"}
+OpTypes == {"filter", "bind", "unbind", "resync", "apirelease", "poolupsert", "reload", "syncpod", "preempt", "syncall"}
+\* syncall: the periodic syncPodIPsIntoDB -- one unlocked listing of the informer's pods, then syncPodIP (the body of
+\* "syncpod") for every running pod of that snapshot in turn; the snapshot may be stale by the time a pod's turn comes
 \* preempt (the scheduler's preemption extender) runs the same getSubnet as filter (guard "podlock:preempt": it holds the pod
 \* lock while doing so; the code did not before a fix: commit)
 IsFilter(o) == o.type \in {"filter", "preempt"}
@@ -125,6 +127,7 @@ Call(o) ==
     CASE o.pc = "lockpod"      -> C("lockpod", [key |-> L.podname])
       [] o.pc = "lockdp"       -> C("lockdp", [key |-> L.oldK])
       [] o.pc \in {"podlist", "podlist0"} -> C("podlist", [pod |-> L.podname])
+      [] o.pc = "podlistall"   -> C("podlistall", [x \in {} |-> 0])
       [] o.pc = "podget"       -> C("podget", [pod |-> L.podname])
       [] o.pc \in {"bykey", "bykey2"} -> C("ByKeyAndIPRanges", [key |-> L.key, ranges |-> IF o.type \in {"filter", "preempt", "bind"} THEN L.lpod.ranges ELSE <<>>])
       [] o.pc = "bykey_r"      -> C("ByKeyAndIPRanges", [key |-> L.key, ranges |-> <<>>])
@@ -194,8 +197,18 @@ BindSkip(o) ==
     ELSE BindSkip([o EXCEPT !.loc.i = L.i + 1])
 BindNextIP_(o) == BindSkip([o EXCEPT !.loc.i = o.loc.i + 1])
 
+\* syncall: the next running pod of the listed snapshot (L.items, position L.need), or the end of the pass
+RECURSIVE SyncAllNext(_)
+SyncAllNext(o) ==
+    LET L == o.loc IN
+    IF L.need > Len(L.items) THEN Finish(o, TRUE)
+    ELSE LET p == L.items[L.need] IN
+         IF p.phase # "Running" THEN SyncAllNext([o EXCEPT !.loc.need = L.need + 1])
+         ELSE [o EXCEPT !.pc = "lockpod", !.loc.lpod = p, !.loc.key = KeyOf(p), !.loc.policy = PolicyOf(p), !.loc.podname = p.name,
+                        !.loc.ips = p.ann, !.loc.i = 1, !.loc.need = L.need + 1]
+SyncEnd(o) == IF o.type = "syncall" THEN SyncAllNext(o) ELSE Finish(o, TRUE)
 SyncNext(o) ==
-    IF o.loc.i >= Len(o.loc.ips) THEN Finish(o, TRUE)
+    IF o.loc.i >= Len(o.loc.ips) THEN SyncEnd(o)
     ELSE [o EXCEPT !.pc = "byip", !.loc.i = o.loc.i + 1, !.loc.ip = o.loc.ips[o.loc.i + 1]]
 
 (* ---- filter: what follows getAvailableSubnet ---- *)
@@ -370,12 +383,15 @@ Cont(o, r) ==
         ELSE {[o EXCEPT !.pc = "configure", !.loc.need = r.conf]}
    [] o.type = "reload" /\ o.pc = "configure" -> {Finish(o, r.ok)}
     (* ======== pod-ip sync of a running pod (UpdatePod) ======== *)
-   [] o.type = "syncpod" /\ o.pc = "lockpod" ->
-        IF Len(L.ips) = 0 THEN {Finish(o, TRUE)} ELSE {[o EXCEPT !.pc = "byip", !.loc.i = 1, !.loc.ip = L.ips[1]]}
-   [] o.type = "syncpod" /\ o.pc = "byip" ->
+   [] o.type \in {"syncpod", "syncall"} /\ o.pc = "lockpod" ->
+        IF Len(L.ips) = 0 THEN {SyncEnd(o)} ELSE {[o EXCEPT !.pc = "byip", !.loc.i = 1, !.loc.ip = L.ips[1]]}
+   [] o.type \in {"syncpod", "syncall"} /\ o.pc = "byip" ->
         IF r.key = NoKey /\ L.ip \in DOMAIN mem THEN {Goto(o, "specific")}
         ELSE {SyncNext(o)}
-   [] o.type = "syncpod" /\ o.pc = "specific" -> {SyncNext(o)}
+   [] o.type \in {"syncpod", "syncall"} /\ o.pc = "specific" -> {SyncNext(o)}
+    (* ======== periodic pod-ip sync (syncPodIPsIntoDB): one listing, then every running pod of the snapshot ======== *)
+   [] o.type = "syncall" /\ o.pc = "podlistall" ->
+        {SyncAllNext([o EXCEPT !.loc.items = [i \in 1..Len(r.names) |-> lpods[r.names[i]]], !.loc.need = 1])}
    [] OTHER -> {}
 
 
@@ -404,6 +420,10 @@ IsPermOf(q, S) == Range(q) = S /\ Len(q) = Cardinality(S)
 \* a permutation; without (model checking) address order and its reverse
 Orders(S, h) == IF HasHint(h) THEN (IF "ips" \in DOMAIN h /\ IsPermOf(h.ips, S) THEN {h.ips} ELSE {})
                 ELSE {AddrSeq(S), Rev(AddrSeq(S))}
+RECURSIVE NameSeq(_)
+NameSeq(S) == IF S = {} THEN <<>> ELSE LET x == CHOOSE y \in S : TRUE IN <<x>> \o NameSeq(S \ {x})
+NameOrders(S, h) == IF HasHint(h) THEN (IF "names" \in DOMAIN h /\ IsPermOf(h.names, S) THEN {h.names} ELSE {})
+                    ELSE {NameSeq(S), Rev(NameSeq(S))}
 ErrClass(e) == IF e = "" THEN "" ELSE IF e = "noip" THEN "noip" ELSE "other"
 IpamRet(o) == [ok |-> o.ret.ok, err |-> ErrClass(o.ret.err), ips |-> o.ret.ips,
                reserved |-> IF "reserved" \in DOMAIN o.ret THEN o.ret.reserved ELSE FALSE, calls |-> o.calls]
@@ -422,6 +442,8 @@ CallOutcomes(o, c, f, h) ==
       [] c.name = "podlist" ->
            IF a.pod \in DOMAIN lpods THEN RO([found |-> TRUE, uid |-> lpods[a.pod].uid, phase |-> lpods[a.pod].phase, err |-> ""])
            ELSE RO([found |-> FALSE, uid |-> "", phase |-> "", err |-> ""])
+      [] c.name = "podlistall" ->      \* the lister returns the cached pods in map order
+           {[ret |-> [names |-> q], w |-> W] : q \in NameOrders(DOMAIN lpods, h)}
       [] c.name = "podget" ->
            IF f = 1 THEN RO([found |-> FALSE, uid |-> "", phase |-> "", err |-> "injected"])
            ELSE IF a.pod \in DOMAIN pods THEN RO([found |-> TRUE, uid |-> pods[a.pod].uid, phase |-> pods[a.pod].phase, err |-> ""])
@@ -499,7 +521,7 @@ StepOutcomes(id, f, h) ==
     UNION { { LET w0 == out.w
                   w1 == IF c.name = "lockpod" /\ LockGuard("podlock", o.type) THEN [w0 EXCEPT !.podlock = Put(podlock, c.args.key, id)]
                         ELSE IF c.name = "lockdp" /\ LockGuard("dplock", o.type) THEN [w0 EXCEPT !.dplock = Put(dplock, c.args.key, id)] ELSE w0
-                  rel == o2.pc = "done" \/ (o.type = "resync" /\ o2.pc = "lockpod")
+                  rel == o2.pc = "done" \/ (o.type \in {"resync", "syncall"} /\ o2.pc = "lockpod")
                   w2 == IF rel THEN [w1 EXCEPT !.podlock = LocksWithout(w1.podlock, id), !.dplock = LocksWithout(w1.dplock, id)] ELSE w1
               IN IF o2.pc = "done" THEN Complete(w2, id, o, o2) ELSE [w2 EXCEPT !.ops = [w2.ops EXCEPT ![id] = o2]]
             : o2 \in Cont(o, out.ret) }
@@ -523,6 +545,7 @@ StartApiReleaseW(ip, key) ==
     AddOp(Cur, [NewOp("apirelease", IF key.pod = "" THEN "lockpod" ELSE "podlist0", key.pod, "", "")
                 EXCEPT !.loc.ip = ip, !.loc.key = key, !.loc.podname = key.pod])
 StartReloadW == AddOp(Cur, NewOp("reload", "cmget", "", "", ""))
+StartSyncAllW == AddOp(Cur, NewOp("syncall", "podlistall", "", "", ""))
 StartPoolUpsertW(pl, size, prealloc) ==
     LET w == [Cur EXCEPT !.poolobj = Put(poolobj, pl, [size |-> size, prealloc |-> prealloc])] IN
     IF prealloc
